@@ -45,6 +45,7 @@ pub fn sig_len(fam: FamId, units: usize, seq: u64, pairs: &Pairs) -> usize {
         FamId::Var | FamId::Wide => 64 + keys::var_pad(&record::content_from_fields(seq, &to_vec(pairs)), units).len(),
         FamId::Tiny => 6,
         FamId::Nano => 1,
+        FamId::Null => 0,
         FamId::Mid => keys::mid_len(&record::content_from_fields(seq, &to_vec(pairs))),
         _ => 64,
     }
